@@ -109,15 +109,13 @@ template<class V> struct Model
   int64_t origin[3] = {0, 0, 0};         // absolute map coordinate of logical cell (0,0,0)
   std::vector<V> cell;                   // map value at absolute coordinate origin + x
   std::vector<uint8_t> entered;          // 1: brought into the window by the last translation
-  std::vector<V> tmp;
-  std::vector<uint8_t> tmpe;
 
   size_t size() const {return static_cast<size_t>(n[0]) * n[1] * n[2];}
   size_t lin(int x, int y, int z) const {return x + static_cast<size_t>(n[0]) * (y + static_cast<size_t>(n[1]) * z);}
   void init(const I3 & n_)
   {
     n = n_; origin[0] = origin[1] = origin[2] = 0;
-    cell.assign(size(), V()); entered.assign(size(), 0); tmp.assign(size(), V()); tmpe.assign(size(), 0);
+    cell.assign(size(), V()); entered.assign(size(), 0);
   }
   void write(int x, int y, int z, const V & v)
   {
@@ -133,6 +131,9 @@ template<class V> struct Model
   // x + off showed before if that was inside the window, else the empty value.
   void translate(const I3 & off, const V & empty)
   {
+    static std::vector<V> tmp;             // scratch (single-threaded monitor), not part of the state
+    static std::vector<uint8_t> tmpe;
+    tmp.resize(size()); tmpe.resize(size());
     for (int z = 0; z < n[2]; ++z) {
       const int64_t oz = static_cast<int64_t>(z) + off[2];
       for (int y = 0; y < n[1]; ++y) {
@@ -332,11 +333,11 @@ static std::string witness_json(
 }
 
 // records the verdicts of one comparison; returns true when everything matched
-template<class V, size_t DIM>
+template<class V, size_t DIM, class History>
 static bool verdict(
   vh::Ctx & c, Tally & t, const char * unit, WrappableGrid<V, DIM> & g, const Model<V> & m,
   const CmpStat & s, int n_translations, int n_writes, const I3 & last_off,
-  const std::function<std::vector<OpRec>()> & history)
+  const History & history)
 {
   if (!s.bad) {
     if (s.had_survivor) {++t.surv;}
@@ -555,13 +556,20 @@ template<size_t DIM> static void run_bfs(vh::Ctx & c, const Unit & u, Tally & t)
 // --------------------------------------------------------------------------------------------
 static int chunks_for(const I3 & n, int dim, int depth)
 {
-  // size of the last expansion ~ (distinct states of depth-1) x |T|; measured de-duplication keeps
-  // roughly |T|^(depth-1)/6 states on the larger grids.  Aim at <= ~150 000 transitions per chunk.
-  double T = 1;
-  for (int a = 0; a < dim; ++a) {T *= 2 * n[a] + 3;}
-  double work = std::pow(T, depth) / (depth >= 3 ? 6.0 : 1.0);
-  int K = static_cast<int>(work / 150000.0) + 1;
-  return std::min(K, 256);
+  // Every chunk rebuilds the layers below the last one, so the number of chunks must stay small
+  // against (size of the last frontier) / (size of the layers below).  On the repaired tree layer 1
+  // has L1 = prod(2n-1) + prod(n) states (partially overlapping windows + blank grids at every
+  // offset) and layer 2 about L1^2 / 2.25 (measured: 3x3x3 -> 1, 152, 10261).
+  double T = 1, L1a = 1, L1b = 1;
+  for (int a = 0; a < dim; ++a) {T *= 2 * n[a] + 3; L1a *= 2 * n[a] - 1; L1b *= n[a];}
+  const double L1 = L1a + L1b;
+  int K;
+  if (depth >= 3) {
+    K = static_cast<int>(L1 / 9.0);                 // ~4 L1 T transitions per chunk, <= 25 % rebuilt
+  } else {
+    K = std::min(static_cast<int>(L1 * T / 150000.0), static_cast<int>(L1 / 4.0));
+  }
+  return std::max(1, std::min(K, 64));
 }
 
 static std::vector<Unit> build_units(bool thorough)
@@ -783,6 +791,11 @@ int main(int argc, char ** argv)
 {
   g_units_quick = build_units(false);
   g_units_thorough = build_units(true);
+  if (getenv("C15_LIST_UNITS")) {     // development aid: case index -> unit
+    const auto & U = std::string(getenv("C15_LIST_UNITS")) == "thorough" ? g_units_thorough : g_units_quick;
+    for (size_t i = 0; i < U.size(); ++i) {printf("%zu %s\n", i, unit_name(U[i]).c_str());}
+    return 0;
+  }
   return vh::run(argc, argv, "C15",
            {g_units_quick.size() + 3000, g_units_thorough.size() + 2000000}, one_case,
            [](vh::Ctx & c) {
